@@ -20,7 +20,7 @@ RULE = ("histories (tree; `group` run; edits at a chosen logical instant; dedupe
         "dropped something; distinct = (instant, edit kinds, operation, format)")
 
 EDITS = ["rewrite-same-len", "rewrite-other-len", "append", "truncate", "delete", "delete-recreate", "to-directory",
-         "to-dangling-symlink", "to-symlink-to-fresh-file", "to-symlink-to-old-file-of-other-length", "touch"]
+         "to-dangling-symlink", "to-symlink-to-fresh-file", "to-symlink-to-old-file-of-other-length", "replaced-by-old-file-of-other-length", "touch"]
 
 
 def apply_edit(kind, p, r, d, k):
@@ -67,6 +67,12 @@ def apply_edit(kind, p, r, d, k):
             f.write(fresh(L + 1 + r.randrange(50)))
         os.utime(tgt, (1_500_000_000, 1_500_000_000))
         os.symlink(tgt, p)
+    elif kind == "replaced-by-old-file-of-other-length":
+        # `mv /some/old/file p`: an old time stamp, but another length (which is what the dedupe commands compare first)
+        os.unlink(p)
+        with open(p, "wb") as f:
+            f.write(fresh(L + 1 + r.randrange(50)))
+        os.utime(p, (1_500_000_000, 1_500_000_000))
     elif kind == "touch":
         os.utime(p, None)
 
@@ -114,7 +120,17 @@ def _run(r, scratch, i):
     no_check_size = r.random() < 0.15
     if gtransform or no_check_size:
         # ... so a link to an old file would be an mtime-preserving replacement, which is outside the guarantee
-        edit_kinds = ["to-symlink-to-fresh-file" if e == "to-symlink-to-old-file-of-other-length" else e for e in edit_kinds]
+        edit_kinds = ["to-symlink-to-fresh-file" if e == "to-symlink-to-old-file-of-other-length" else
+                      "rewrite-other-len" if e == "replaced-by-old-file-of-other-length" else e for e in edit_kinds]
+    if nroots == 2 and not (gtransform or no_check_size) and r.random() < 0.35:
+        # two --isolate roots: a member of the second root that is not the first of its root is replaced by an old file of
+        # another length (each path of a root has to be checked, not one per root)
+        last = sorted(m for m in members if m.startswith(fse(os.path.join(troot, spec["roots"][-1])) + b"/"))
+        if len(last) >= 2:
+            v = last[r.randrange(1, len(last))]
+            victims = [v] + [x for x in victims if x != v][:len(victims) - 1]
+            edit_kinds = edit_kinds[:len(victims)]
+            edit_kinds[0] = "replaced-by-old-file-of-other-length"
     # a fifth of the reports are made with -S (the dedupe commands then inherit it from the header)
     gsym = r.random() < 0.2
     if gsym and not (gtransform or no_check_size) and r.random() < 0.5:
@@ -168,6 +184,10 @@ def _run(r, scratch, i):
         cfg["priority"] = [r.choice(dd.PRIORITIES)]
     if no_check_size:
         cfg["no_check_size"] = True
+    if r.random() < 0.3:
+        # the replica count given on the dedupe command line instead of inherited from the report
+        cfg["n"] = r.choice([1, 1, 2])
+        cfg["n_flag"] = r.choice(["-n", "--rf-over"])
     log = os.path.join(d, "shim.log")
     senv = shimlog.shim_env(log, [troot] + ([target] if target else []), ficlone=(op == "dedupe"))
     senv["TZ"] = tz
@@ -208,9 +228,9 @@ def _run(r, scratch, i):
     ev, fired, junk = shimlog.parse(log)
     nops = len(dd.log_ops(ev, op))
     content_changed = any(e in ("rewrite-same-len", "rewrite-other-len", "append", "truncate", "delete-recreate", "to-symlink-to-fresh-file",
-                                "to-symlink-to-old-file-of-other-length")
+                                "to-symlink-to-old-file-of-other-length", "replaced-by-old-file-of-other-length")
                           for e in edit_kinds)
-    sig = (sigi, tuple(sorted(set(edit_kinds))), op, fmt, tz, bool(gtransform), bool(cfg.get("no_check_size")), gsym) if content_changed else None
+    sig = (sigi, tuple(sorted(set(edit_kinds))), op, fmt, tz, bool(gtransform), bool(cfg.get("no_check_size")), gsym, cfg.get("n")) if content_changed else None
     skipped = dres.err_text().count("Could not determine files to drop") + dres.err_text().count("Skipping file")
     return [ok(sig, {"instant": instant, "edits": edit_kinds, "op": op, "fmt": fmt, "TZ": tz, "ops_done": nops, "skip_warnings": skipped},
                {"instants": [sigi], "edit_kinds": edit_kinds, "dedupe_ops_done": nops, "groups_or_files_skipped": skipped,
